@@ -89,7 +89,10 @@ func introspectRemoteSchema(factory QueryerFactory, url string) (*ast.Schema, er
 
 	for _, remoteType := range remoteSchema.Types {
 		// convert turn the API payload into a schema type
-		schemaType := parseType(remoteType)
+		schemaType, err := parseType(remoteType)
+		if err != nil {
+			return nil, err
+		}
 		if schemaType == nil {
 			continue
 		}
@@ -184,13 +187,18 @@ func introspectRemoteSchema(factory QueryerFactory, url string) (*ast.Schema, er
 			locations = append(locations, ast.DirectiveLocation(value))
 		}
 
+		args, err := parseArgList(directive.Args)
+		if err != nil {
+			return nil, err
+		}
+
 		// save the directive definition to the schema
 		schema.Directives[directive.Name] = &ast.DirectiveDefinition{
 			// otherwise gqlparser will fail
 			Position:    &ast.Position{Src: &ast.Source{}},
 			Name:        directive.Name,
 			Description: directive.Description,
-			Arguments:   parseArgList(directive.Args),
+			Arguments:   args,
 			Locations:   locations,
 		}
 
@@ -214,13 +222,13 @@ func formatSchema(schema *ast.Schema) string {
 	return buf.String()
 }
 
-func parseType(remoteType IntrospectionQueryFullType) *ast.Definition {
+func parseType(remoteType IntrospectionQueryFullType) (*ast.Definition, error) {
 	switch remoteType.Name {
 	// skip builtin stuff, it'll be lately added by gqlparser
 	case "ID", "Int", "Float", "String", "Boolean",
 		"__Schema", "__Type", "__InputValue", "__TypeKind",
 		"__DirectiveLocation", "__Field", "__EnumValue", "__Directive":
-		return nil
+		return nil, nil
 	}
 
 	definition := &ast.Definition{
@@ -254,38 +262,54 @@ func parseType(remoteType IntrospectionQueryFullType) *ast.Definition {
 	var fields ast.FieldList
 
 	for _, field := range remoteType.Fields {
+		fieldType, err := parseTypeRef(&field.Type)
+		if err != nil {
+			return nil, err
+		}
+		args, err := parseArgList(field.Args)
+		if err != nil {
+			return nil, err
+		}
 		// add the field to the list
 		fields = append(fields, &ast.FieldDefinition{
 			Name:        field.Name,
-			Type:        parseTypeRef(&field.Type),
+			Type:        fieldType,
 			Description: field.Description,
-			Arguments:   parseArgList(field.Args),
+			Arguments:   args,
 		})
 	}
 
 	for _, field := range remoteType.InputFields {
+		inputField, err := parseInputField(field)
+		if err != nil {
+			return nil, err
+		}
 		// add the field to the list
-		fields = append(fields, parseInputField(field))
+		fields = append(fields, inputField)
 	}
 
 	definition.Fields = fields
 
-	return definition
+	return definition, nil
 }
 
-func parseInputField(field IntrospectionInputValue) *ast.FieldDefinition {
+func parseInputField(field IntrospectionInputValue) (*ast.FieldDefinition, error) {
+	fieldType, err := parseTypeRef(&field.Type)
+	if err != nil {
+		return nil, err
+	}
 	fd := &ast.FieldDefinition{
 		Name:        field.Name,
-		Type:        parseTypeRef(&field.Type),
+		Type:        fieldType,
 		Description: field.Description,
 	}
 	if field.DefaultValue == nil {
-		return fd
+		return fd, nil
 	}
 
 	bRaw, err := json.Marshal(field.DefaultValue)
 	if err != nil {
-		return fd
+		return fd, nil
 	}
 
 	isArray := fd.Type.Elem != nil
@@ -307,7 +331,7 @@ func parseInputField(field IntrospectionInputValue) *ast.FieldDefinition {
 	if isArray {
 		arr, ok := field.DefaultValue.([]interface{})
 		if !ok {
-			return fd
+			return fd, nil
 		}
 
 		var children ast.ChildValueList
@@ -315,7 +339,7 @@ func parseInputField(field IntrospectionInputValue) *ast.FieldDefinition {
 		for _, el := range arr {
 			elRaw, err := json.Marshal(el)
 			if err != nil {
-				return fd
+				return fd, nil
 			}
 			if vKind == ast.StringValue && len(elRaw) > 2 {
 				// stash additional "" after json marshalling
@@ -336,7 +360,7 @@ func parseInputField(field IntrospectionInputValue) *ast.FieldDefinition {
 			Kind:     ast.ListValue,
 			Children: children,
 		}
-		return fd
+		return fd, nil
 	}
 
 	if vKind == ast.StringValue && len(bRaw) > 2 {
@@ -350,42 +374,64 @@ func parseInputField(field IntrospectionInputValue) *ast.FieldDefinition {
 		Kind:     vKind,
 	}
 
-	return fd
+	return fd, nil
 }
 
-func parseArgList(args []IntrospectionInputValue) ast.ArgumentDefinitionList {
+func parseArgList(args []IntrospectionInputValue) (ast.ArgumentDefinitionList, error) {
 	result := ast.ArgumentDefinitionList{}
 
 	// we need to add each argument to the field
 	for _, argument := range args {
+		argType, err := parseTypeRef(&argument.Type)
+		if err != nil {
+			return nil, err
+		}
 		result = append(result, &ast.ArgumentDefinition{
 			Name:        argument.Name,
 			Description: argument.Description,
-			Type:        parseTypeRef(&argument.Type),
+			Type:        argType,
 		})
 	}
 
-	return result
+	return result, nil
 }
 
-func parseTypeRef(response *IntrospectionTypeRef) *ast.Type {
+// errNoOfType: a LIST or NON_NULL type reference that does not say what it wraps (a malformed
+// answer, or one cut off by the seven levels of ofType the introspection query asks for)
+var errNoOfType = errors.New("could not find the wrapped type of a type reference")
+
+func parseTypeRef(response *IntrospectionTypeRef) (*ast.Type, error) {
+	if response == nil {
+		return nil, errNoOfType
+	}
+
 	// we could have a non-null list of a field
-	if response.Kind == "NON_NULL" && response.OfType.Kind == "LIST" {
-		return ast.NonNullListType(parseTypeRef(response.OfType.OfType), &ast.Position{})
+	if response.Kind == "NON_NULL" {
+		if response.OfType == nil {
+			return nil, errNoOfType
+		}
+		if response.OfType.Kind == "LIST" {
+			elem, err := parseTypeRef(response.OfType.OfType)
+			if err != nil {
+				return nil, err
+			}
+			return ast.NonNullListType(elem, &ast.Position{}), nil
+		}
+		// we could have just a non null
+		return ast.NonNullNamedType(response.OfType.Name, &ast.Position{}), nil
 	}
 
 	// we could have a list of a type
 	if response.Kind == "LIST" {
-		return ast.ListType(parseTypeRef(response.OfType), &ast.Position{})
-	}
-
-	// we could have just a non null
-	if response.Kind == "NON_NULL" {
-		return ast.NonNullNamedType(response.OfType.Name, &ast.Position{})
+		elem, err := parseTypeRef(response.OfType)
+		if err != nil {
+			return nil, err
+		}
+		return ast.ListType(elem, &ast.Position{}), nil
 	}
 
 	// if we are looking at a named type that isn't in a list or marked non-null
-	return ast.NamedType(response.Name, &ast.Position{})
+	return ast.NamedType(response.Name, &ast.Position{}), nil
 }
 
 func parseQueryerResponse(resp []map[string]interface{}) (*IntrospectionQueryResult, error) {
